@@ -26,6 +26,7 @@ def check(repo: Repo, rep, tier):
     delete_exclusive(repo, rep)
     no_source(repo, rep)
     apply_once(repo, rep)
+    write_fresh(repo, rep)
 
 
 SESSION_END = ("_get_changes", "_new_code")
@@ -601,3 +602,35 @@ def delete_exclusive(repo: Repo, rep):
                 else:
                     rep.violation("R-DELETE-EXCLUSIVE", r.func, r.call, f"{r.func.qualname} can emit a Delete and a Replace for the same `{norm(r.args.get('node'))}` (the Replace is not restricted to elements that are kept): with trim and update approved the two edits overlap and the session ends with an AssertionError", construct="delete+replace")
     rep.floor("R-DELETE-EXCLUSIVE", "Delete/Replace pairs on one node", n, 1)
+
+
+def write_fresh(repo: Repo, rep):
+    rep.rule(
+        "R-WRITE-FRESH",
+        "in both drivers the recorder whose fix_all() writes the files is created by `ChangeRecorder()` for that purpose (not an alias of a recorder used for "
+        "previews) and receives the changes through exactly one apply_all call (plus ensure_import): all edits of a container are merged in one pass",
+    )
+    cg = callgraph(repo)
+    for key in ("pytest_plugin.py::pytest_sessionfinish", "testing/_example.py::Example.run_inline"):
+        f = repo.func(key)
+        cfg = cfg_of(f)
+        fixes = [(n, c) for n in cfg.live for c in node_calls(n) if any(t.key == "_rewrite_code.py::ChangeRecorder.fix_all" for t in cg.call_targets(f, c)[0]) and isinstance(c.func, ast.Attribute) and isinstance(c.func.value, ast.Name)]
+        rep.floor("R-WRITE-FRESH", f"fix_all sites in {f.qualname}", len(fixes), 1)
+        for n, c in fixes:
+            r = c.func.value.id
+            ds = reaching_defs(cfg, n, r, correlate=True)
+            vals = [def_value(d, r) for d in ds]
+            fresh = bool(vals) and all(isinstance(v, ast.Call) and norm(v.func).endswith("ChangeRecorder") for v in vals)
+            if not fresh:
+                rep.violation("R-WRITE-FRESH", f, c, f"{f.qualname} writes the files with a recorder that is `{short(vals[0], 40) if vals and vals[0] is not None else '?'}` - not a recorder created for the final write: it still carries the edits of the per-category previews (applied in separate passes), which do not compose with the approved changes", construct="not-fresh")
+                continue
+            feeds = []
+            for m in cfg.live:
+                for cc in node_calls(m):
+                    if any(t.key == "_change.py::apply_all" for t in cg.call_targets(f, cc)[0]) and len(cc.args) >= 2 and isinstance(cc.args[1], ast.Name) and cc.args[1].id == r:
+                        if set(reaching_defs(cfg, m, r)) & set(ds) and n in reach(cfg, [m]):
+                            feeds.append(cc)
+            if len(feeds) == 1:
+                rep.ok("R-WRITE-FRESH", f, c, f"fresh recorder `{r}`, one apply_all")
+            else:
+                rep.violation("R-WRITE-FRESH", f, c, f"the recorder written by {f.qualname} is fed by {len(feeds)} apply_all calls; the edits of one container must be merged in exactly one", construct=f"feeds:{len(feeds)}")
